@@ -85,6 +85,7 @@ struct Config {
     Session resume;              // client: offer this session id; server: accept it when the client offers it
     bool offer_ticket_ext = false; // client: send an empty session_ticket extension
     bool ack_ticket_ext = false;   // server: acknowledge session_ticket (then NewSessionTicket is a legal message)
+    bool server_empty_session_id = false; // server: ServerHello carries an empty session id (not resumable by id; RFC 5077 ticket-only servers do this)
     Bytes master_override;         // 48 bytes: use this master secret wherever the puppet would take the resumed session's secret (or, lacking any key exchange,
                                    // derive one from an empty premaster) - "wrong session secret" deviations; a ClientKeyExchange still computes the real one
     std::vector<uint16_t> extra_suites; // client: offered in addition to `suite` (after it)
